@@ -239,9 +239,16 @@ fn run_case(w: &mut Worker, names: &[String], consistent: bool, source: &str) ->
             let cdir = cparent.join("cached-metadata");
             std::fs::create_dir_all(&cparent).unwrap();
             let cbefore = fstree::snapshot(&cparent);
+            let nlog = t.log().len();
             let cres = w.rt.block_on(async { tokio::time::timeout(wd, repo.cache_metadata(&cdir, true)).await });
             out.evals += 1;
             let clist = check_dir("cache", &cdir, &cbefore, &cparent, &mut out);
+            // every request made while caching must be a plain entry too - whether or not caching succeeds
+            for r in t.log().iter().skip(nlog) {
+                if let Err(e) = plain_entry_url(&r.path) {
+                    out.viol("not-plain-entry:place=url-while-caching", e);
+                }
+            }
             match cres {
                 Err(_) => out.inconc("watchdog"),
                 Ok(Err(e)) => out.obs(format!("cache_metadata failed: {}", client::err_class(&e))),
@@ -256,12 +263,6 @@ fn run_case(w: &mut Worker, names: &[String], consistent: bool, source: &str) ->
                     for (role, f) in &url_of {
                         if croles.iter().any(|d| strip_version(consistent, d) == *f) {
                             record("cache", consistent, f, role, &mut out);
-                        }
-                    }
-                    // every request made while caching must be a plain entry too
-                    for r in t.log() {
-                        if let Err(e) = plain_entry_url(&r.path) {
-                            out.viol("not-plain-entry:place=url", e);
                         }
                     }
                     out.h("cache=ok");
